@@ -38,7 +38,7 @@ META = dict(
                 "reference point default / corner / far lattice point; histories: first step from the full alphabet, "
                 "further steps from a reduced one. Rotations are compared with tolerance on every embedding. The scale "
                 "class of the embedding (coordinates >= 10 / cells <= 1e-10) is part of every violation key because "
-                "Mesh.is_aligned uses an absolute tolerance (D18). Trusted: TLC, harness/tlaval.py, the "
+                "Mesh.is_aligned used an absolute tolerance until the fix of D18 (a relapse is then reported per scale class). Trusted: TLC, harness/tlaval.py, the "
                 "embedding/projection adapter, h5py/json."),
     technique="TLA+ lattice model (Lattice.tla, C14.tla) + TLC exhaustive; spec states replayed into code; code traces validated by TLC (C14Trace.tla)",
     design_ref="DESIGN.md section 7 C14",
